@@ -544,6 +544,9 @@ def run_case(case):
     try:
         csys = gen.render_system(cdesc, gen.Rendering(r))
         ns = r.randint(1, 4)
+        if r.random() < 0.06 and S * G <= 40:
+            ns = r.choice([255, 256, 257, 300, 513, 700])      # more samples than a block of 256 (the last partial block matters)
+            cnt["uncoarsegrain_long_trajectories"] = cnt.get("uncoarsegrain_long_trajectories", 0) + 1
         qu = r.choice(["mol", "mmol", "µmol", "nmol", "pmol", "fmol", "molecule"])
         tu = r.choice(["h", "min", "s", "ms", "µs"])
         vals = [0.0 if r.random() < 0.15 else r.uniform(0, 500) * 10 ** r.randint(-3, 3) for _ in range(ns * S * G)]
